@@ -175,9 +175,12 @@ func (s *Scanner) Length() uint {
 
 		if lex.Type() == lexeme.EndTop {
 			// Found character after the end of the schema and spaces.
-			// Example: char "s" in "{} some text"
-			length = uint(lex.End()) - 1
+			// Example: char "s" in "{} some text". The schema ends with its
+			// last lexeme: a user comment in between belongs to neither.
 			break
+		}
+		if lex.Type() == lexeme.NewLine {
+			continue
 		}
 
 		length = uint(lex.End()) + 1
